@@ -73,6 +73,20 @@ InitExpr == /\ cli \in SUBSET Syms
                   ls = <<[k |-> "if", e |-> e], [k |-> "src"], [k |-> "else"], [k |-> "src"], [k |-> "endif"]>>
             /\ r = RefRun(R0(cli), ls, 1)
 NextExpr == UNCHANGED vars
+\* ---- deep expressions: compound groups that are parenthesised and negated, up to two levels, standing alone or as an operand -
+\* far beyond what the token-sequence family reaches (X && (!(A || B)) has 11 tokens)
+BinOps == {"&&", "||"}
+Groups == {<<a, op, b>> : a \in {"A", "B"}, op \in BinOps, b \in {"A", "B"}}
+Nested == UNION {{<<"(">> \o g \o <<")">>, <<"!", "(">> \o g \o <<")">>, <<"(", "!", "(">> \o g \o <<")", ")">>,
+                  <<"!", "(", "!", "(">> \o g \o <<")", ")">>, <<"(", "(">> \o g \o <<")", ")">>} : g \in Groups}
+DeepExprs == Nested
+             \cup {<<x, op>> \o n : x \in Syms, op \in BinOps, n \in Nested} \cup {n \o <<op, x>> : x \in Syms, op \in BinOps, n \in Nested}
+             \cup {<<"!", x, op>> \o n : x \in Syms, op \in BinOps, n \in Nested}
+             \cup {n \o <<op>> \o m : op \in BinOps, n \in Nested, m \in {q \in Nested : Len(q) <= 6}}
+InitDeep == /\ cli \in SUBSET Syms
+            /\ \E e \in DeepExprs :
+                  ls = <<[k |-> "if", e |-> e], [k |-> "src"], [k |-> "else"], [k |-> "src"], [k |-> "endif"]>>
+            /\ r = RefRun(R0(cli), ls, 1)
 \* grammar-shaped parse and declarative fold agree on well-formedness and value, for every valuation
 ExprRefEqParse == LET e == ls[1].e IN
                   /\ ParseExpr(e).ok = RefWellFormed(e)
